@@ -61,6 +61,16 @@ func runC02(r *rt.Run) {
 			})
 		}
 		w.Evals++
+		// every position written twice (zero-length segments, same point sets)
+		if a.G6 != nil && b.G6 != nil && ab == want && ba == want {
+			ab6, ba6, m6 := libIntersects(a.G6, b.G6), libIntersects(b.G6, a.G6), libIntersects(a.G6, b.G)
+			if ab6 != want || ba6 != want || m6 != want {
+				w.Fail(fmt.Sprintf("intersects-%s-%s-want-%v+doubled", a.E.Kind, b.E.Kind, want), func() (rt.Case, string, string) {
+					return pairCase("intersects", a.E, b.E, ident, "doubled"), fmt.Sprint(want), fmt.Sprintf("%v / %v / %v", ab6, ba6, m6)
+				})
+			}
+			w.Evals += 3
+		}
 		if ab4 := libIntersects(a.G4, b.G4); ab4 != ab {
 			w.Fail("scale-dependence", func() (rt.Case, string, string) {
 				return pairCase("intersects", a.E, b.E, ident, "tiny"), fmt.Sprint(want), fmt.Sprint(ab4)
